@@ -40,6 +40,8 @@ def objsOr (pfx : String) (l : List RHost) : String :=
   refresh <filtered objs|-> <objs|->   the diff loop of refreshRing on the reported objects → result + effects + snapshot
   consistent | chk                     `Ring.notFound`: hosts of the ring not found by id and by address → "ok" | "notfound:<objs>"
                                        (`consistent` is emitted only after histories satisfying `C16.HGuarded`, where the answer is PROVED "ok")
+  nostale <n>                          `Ring.staleAddrs n`: addresses 0..n with a stale by-address entry → "ok" | "stale:<addrs>"
+                                       (PROVED "ok" after every history: `C16.C16_stale_nil`)
   covered | chkcov                     `Ring.uncovered` → "ok" | "uncovered:<objs>"
                                        (`covered` only after `C16.RemGuarded` histories of ring operations, where the answer is PROVED "ok") -/
 def step (s : St) (ws : List String) : St × String :=
@@ -69,6 +71,8 @@ def step (s : St) (ws : List String) : St × String :=
       ++ " filled=" ++ join (eff.filled.map (fun h => toString h.obj))
       ++ " removed=" ++ join ((sortKeys (eff.removed.map (fun h => (h.obj, ())))).map (fun e => toString e.1))
       ++ " " ++ snapshot r')
+  | ["nostale", n] => let l := s.r.staleAddrs (nat n)
+    (s, if l.isEmpty then "ok" else "stale:" ++ join (l.map toString))
   | ["consistent"] => (s, objsOr "notfound:" s.r.notFound)
   | ["chk"] => (s, objsOr "notfound:" s.r.notFound)
   | ["covered"] => (s, objsOr "uncovered:" s.r.uncovered)
